@@ -1,9 +1,10 @@
 #!/bin/sh
 # Runs every seeded change against its property's check (serially; modifies /repo's working tree while running).
-cd /verif
+V="$(cd "$(dirname "$0")/.." && pwd)"
+cd "$V"
 for d in seeded/*/; do
   n=$(basename $d); id=$(echo $n | cut -c1-3)
   printf "%s: " "$n"
-  tools/mutant.sh /verif/$d/patch.diff $id ${1:-quick} 2>&1 | grep -E "^C[0-9][0-9] tier|exit=|cannot" | tr '\n' ' ' | cut -c1-200
+  tools/mutant.sh "$V"/$d/patch.diff $id ${1:-quick} 2>&1 | grep -E "^C[0-9][0-9] tier|exit=|cannot" | tr '\n' ' ' | cut -c1-200
   echo
 done
